@@ -57,7 +57,8 @@ def make_original(rng, root, kind, cbin_original, ns=None):
         claim = max(600, ns + int(rng.choice([-1, 1])) * int(rng.choice([1, 12, 240, 1200])))
     if kind == "NP2.4r":
         sites = np2.shank_assignment(rng, str(rng.choice(["random", "blocks"])), int(rng.integers(2, 4)))
-        b, rec = np2.build(rng, root, kind="NP2.4", ns=ns, sites=sites, content="random", gain=np2.GAIN_PAIRS[int(rng.integers(0, 4))], claim_ns=claim)
+        b, rec = np2.build(rng, root, kind="NP2.4", ns=ns, sites=sites, content="random", gain=np2.GAIN_PAIRS[int(rng.integers(0, 4))], claim_ns=claim,
+                           fs=float(rng.choice([30000.0, 30000.390639481, 29999.757983])))
     elif kind == "NP1":
         # every generation that is not an NP2 probe (NP1 3A / 3B1 / 3B2, Neuropixels Ultra), as acquired: usually with its hardware LF band next to it
         k1 = str(rng.choice(["3B2", "3A", "3B1", "NPultra", "NPultra"]))
@@ -69,7 +70,8 @@ def make_original(rng, root, kind, cbin_original, ns=None):
             G.write(rec_lf, Path(root) / "probe00", name=np2.NAME.replace(".ap", ".lf"))
             rec.kind1 += "+lf"
     else:
-        b, rec = np2.build(rng, root, kind=kind, ns=ns, content="random", gain=np2.GAIN_PAIRS[int(rng.integers(0, 4))], claim_ns=claim)
+        b, rec = np2.build(rng, root, kind=kind, ns=ns, content="random", gain=np2.GAIN_PAIRS[int(rng.integers(0, 4))], claim_ns=claim,
+                           fs=float(rng.choice([30000.0, 30000.390639481, 29999.757983])))
     rec.claim = claim
     if cbin_original:
         import mtscomp
